@@ -6,7 +6,7 @@
 -/
 import Nuts.Model.Tx
 import NutsProofs.Lemmas.Assoc
-import NutsProofs.Props.C10
+import NutsProofs.Lemmas.Replay
 namespace NutsProofs.Reopen
 open Nuts Nuts.Model Nuts.Model.DB NutsProofs
 
@@ -379,15 +379,15 @@ theorem commit_kv (s : State) (t : List Rec) (h : LogInv s) (ht : KVTx s.opt.seg
     rw [hfiles]
     intro x hx
     rcases List.mem_append.mp hx with hx | hx
-    · rw [C10.committedIds_append]; exact List.mem_append.mpr (Or.inl (h.allCommitted x hx))
+    · rw [Replay.committedIds_append]; exact List.mem_append.mpr (Or.inl (h.allCommitted x hx))
     · rw [hextra_tid x hx]; exact htid_committed
   · show ∀ id, id ∈ (commitLoop s t).1.committed ↔ id ∈ committedIds (allRecs (commitLoop s t).1.files)
     intro id
-    rw [hcom id, hfiles, C10.committedIds_append, List.mem_append, h.ids id]
+    rw [hcom id, hfiles, Replay.committedIds_append, List.mem_append, h.ids id]
     constructor
     · rintro (h1 | ⟨_, rfl⟩)
       · exact Or.inl h1
-      · rw [C10.committedIds_append, List.mem_append] at htid_committed
+      · rw [Replay.committedIds_append, List.mem_append] at htid_committed
         exact htid_committed
     · rintro (h1 | h1)
       · exact Or.inl h1
